@@ -59,8 +59,9 @@ type EV struct {
 	Num  int32  `json:"num"`
 }
 type E struct {
-	Name   string `json:"name"`
-	Values []EV   `json:"values"`
+	AllowAlias bool   `json:"allow_alias"` // option allow_alias = true (several names for one number)
+	Name       string `json:"name"`
+	Values     []EV   `json:"values"`
 }
 type M struct {
 	// EntriesFirst: the synthetic map-entry messages precede the explicitly nested ones in
@@ -226,6 +227,15 @@ func jsonName(s string) string {
 }
 
 func (e *E) toProto() *descriptorpb.EnumDescriptorProto {
+	if e.AllowAlias {
+		p := e.toProtoPlain()
+		p.Options = &descriptorpb.EnumOptions{AllowAlias: proto.Bool(true)}
+		return p
+	}
+	return e.toProtoPlain()
+}
+
+func (e *E) toProtoPlain() *descriptorpb.EnumDescriptorProto {
 	p := &descriptorpb.EnumDescriptorProto{Name: proto.String(e.Name)}
 	for _, v := range e.Values {
 		p.Value = append(p.Value, &descriptorpb.EnumValueDescriptorProto{Name: proto.String(v.Name), Number: proto.Int32(v.Num)})
@@ -745,7 +755,8 @@ func Cross() []*File {
 			{Name: "Times", Fields: []F{rep("ds", 1, "message", ".google.protobuf.Duration"), rep("tss", 2, "message", ".google.protobuf.Timestamp"),
 				mp("md", 3, "string", "message", ".google.protobuf.Duration"), one("d", 4, "message", ".google.protobuf.Duration"), one("t", 5, "message", ".google.protobuf.Timestamp")}},
 		},
-		Enums:  []E{{Name: "Side", Values: []EV{{"SIDE_NONE", 0}, {"SIDE_UP", 5}, {"SIDE_DOWN", 9}, {"SIDE_FAR", -3}}}},
+		Enums: []E{{Name: "Side", Values: []EV{{"SIDE_NONE", 0}, {"SIDE_UP", 5}, {"SIDE_DOWN", 9}, {"SIDE_FAR", -3}}},
+			{Name: "Level", AllowAlias: true, Values: []EV{{"LEVEL_ZERO", 0}, {"LEVEL_LOW", 1}, {"LEVEL_HIGH", 2}, {"LEVEL_MIN", 1}, {"LEVEL_NONE", 0}}}},
 		Public: []string{"verif/xa/xa2.proto"},
 		Svcs: []Svc{{Name: "Keeper", RPCs: []RPC{
 			{Name: "Hold", In: ".verif.xa.Holder", Out: ".verif.xa.Leaf"},
@@ -769,14 +780,23 @@ func Cross() []*File {
 		Deps: []string{"cosmos_proto/cosmos.proto", "google/protobuf/any.proto", "google/protobuf/descriptor.proto"},
 		Exts: ExtSet("opt"),
 		Msgs: []M{{Name: "WithOptions", Implements: []string{"verif.opt.Account", "verif.opt.Other"}, Fields: []F{addr, acct, amt}}}}
-	return []*File{xbe, xb, xa2, xa, opt}
+	// a file that declares only a service (its messages live in xa.proto)
+	xasvc := &File{Name: "verif/xa/xasvc.proto", Pkg: "verif.xa", GoPkg: "xa", Group: "x", Tags: []string{"cross"}, Deps: []string{"verif/xa/xa.proto"},
+		Svcs: []Svc{{Name: "Solo", RPCs: []RPC{{Name: "Ping", In: ".verif.xa.Leaf", Out: ".verif.xa.Leaf"}}}}}
+	// two Go packages with the same package NAME ("types") under different import paths
+	ta := &File{Name: "verif/ta/t.proto", Pkg: "verif.ta", GoPkg: "ta/types", Group: "tt", Tags: []string{"cross"},
+		Msgs: []M{{Name: "Coin", Fields: []F{one("denom", 1, "string"), one("amount", 2, "uint64")}}}}
+	tb := &File{Name: "verif/tb/t.proto", Pkg: "verif.tb", GoPkg: "tb/types", Group: "tt", Tags: []string{"cross"}, Deps: []string{"verif/ta/t.proto"},
+		Msgs: []M{{Name: "Wallet", Fields: []F{rep("coins", 1, "message", ".verif.ta.Coin"), mp("by_denom", 2, "string", "message", ".verif.ta.Coin")}}}}
+	return []*File{xbe, xb, xa2, xa, xasvc, opt, ta, tb}
 }
 
 // ExtSet declares custom options on seven different options messages.
 func ExtSet(prefix string) []X {
 	var out []X
-	for i, e := range []string{"FileOptions", "MessageOptions", "FieldOptions", "EnumOptions", "EnumValueOptions", "OneofOptions", "ServiceOptions"} {
-		out = append(out, X{Name: prefix + "_" + strings.ToLower(e), Num: int32(51000 + i), Kind: []string{"string", "int32", "bool", "bytes"}[i%4], Extendee: ".google.protobuf." + e})
+	// (FieldOptions and MessageOptions occur twice, interleaved with other extendees)
+	for i, e := range []string{"FileOptions", "MessageOptions", "FieldOptions", "EnumOptions", "FieldOptions", "EnumValueOptions", "MessageOptions", "OneofOptions", "ServiceOptions"} {
+		out = append(out, X{Name: prefix + "_" + strings.ToLower(e) + fmt.Sprint(i), Num: int32(51000 + i), Kind: []string{"string", "int32", "bool", "bytes"}[i%4], Extendee: ".google.protobuf." + e})
 	}
 	return out
 }
